@@ -164,6 +164,11 @@ def plan_targets(graph, rng=None, sample=None):
             covered.add(tree_edge[k])
             k = parent[k][0]
         plans.append((ik, full))
+    # initial states nothing leads out of still have to be set up and compared
+    started = {ik for ik, _ in plans}
+    for n in graph.inits:
+        if n not in started and (sample is None or len(plans) < sample + len(graph.inits)):
+            plans.append((n, []))
     return plans, len(covered)
 
 
